@@ -222,7 +222,7 @@ class PropCheck:
         # 3. correspondence and search
         cases = self.cases() + self.scale_cases()
         if not pr["ok"]:
-            cases = cases + [Case("d" + c.id, c.kind, c.fields, c.meta) for c in self.directed_cases(pr)]
+            cases = cases + [Case("d" + c.id, c.kind, c.fields, c.meta, c.impl) for c in self.directed_cases(pr)]
         res = run_both(cases)
         more = []
         for c in cases:
